@@ -167,7 +167,7 @@ def plain(v):
 
 def has_nan(v):
     if isinstance(v, float):
-        return math.isnan(v)
+        return not math.isfinite(v)     # NaN or +-inf: "a non-finite number was produced"
     if isinstance(v, list):
         return any(has_nan(x) for x in v)
     if isinstance(v, dict):
@@ -308,3 +308,37 @@ def load_corpus(pid):
                 with open(os.path.join(d, fn)) as f:
                     out.extend(json.loads(l) for l in f if l.strip())
     return out
+
+
+def run_cases(rep, cases, impl_fn, model_fn=None, oracle_fn=None, rtol=1e-9, atol_fn=None,
+              tags_fn=None, nontrivial_fn=None, compare_fn=None):
+    """the common loop: implementation (fork pool) and model (Lean driver) on every case,
+    structural comparison, property oracle on the implementation's outcome.
+
+    model_fn(case) -> the JSON line for the driver (None: case has no model counterpart)
+    oracle_fn(rep, case, impl_outcome) -> records oracle failures on rep
+    """
+    impl = pmap(impl_fn, cases)
+    mcases, midx = [], []
+    for i, c in enumerate(cases):
+        mc = model_fn(c) if model_fn else c
+        if mc is not None:
+            mcases.append(mc)
+            midx.append(i)
+    mout = run_model(mcases)
+    model = [None] * len(cases)
+    for i, m in zip(midx, mout):
+        model[i] = m
+    for c, o, m in zip(cases, impl, model):
+        tags = list(tags_fn(c, o)) if tags_fn else [c.get('op', '?'), 'outcome:' + (o.get('err') or 'ok')]
+        rep.count(c, nontrivial=nontrivial_fn(c, o) if nontrivial_fn else True, tags=tags)
+        if m is not None:
+            if compare_fn:
+                r = compare_fn(c, o, m)
+            else:
+                r = same(o, m, rtol=rtol, atol=atol_fn(c) if atol_fn else 0.0)
+            if r:
+                rep.mismatch(c.get('op', '?'), r, c, o, m)
+        if oracle_fn:
+            oracle_fn(rep, c, o)
+    return impl, model
